@@ -72,6 +72,8 @@ func resTerm(n *vh.Names, r Res) string {
 		return "RsPaths " + vh.List(el)
 	case "leaves":
 		return "RsLeaves " + leavesTerm(n, r.Leaves)
+	case "qerr":
+		return "RsQErr"
 	case "unit":
 		return "RsUnit"
 	case "panic":
@@ -88,6 +90,8 @@ func sopTerm(n *vh.Names, o SOp) string {
 		return "SGetVal " + n.Path(o.P)
 	case "query":
 		return "SQuery " + n.Path(o.P)
+	case "queryerr":
+		return fmt.Sprintf("SQueryErr %s %s", n.Path(o.P), vh.Nat(int(o.V)))
 	case "delete":
 		return "SDelete " + n.Path(o.P)
 	case "hold":
@@ -104,6 +108,8 @@ func aopTerm(n *vh.Names, o SOp) string {
 		return "AGetVal " + n.Path(o.P)
 	case "query":
 		return "AQuery " + n.Path(o.P)
+	case "queryerr":
+		return "AQueryErr " + n.Path(o.P)
 	case "delete":
 		return "ADelete " + n.Path(o.P)
 	case "hold":
